@@ -70,7 +70,20 @@ def alias_base():
                    "TOP", {"x": 4})
 
 
-BASES = ["equiv_alias", "equiv_wild", "equiv_rich", "subpipe", "dis_pipe", "map_dyn2", "split2", "structs", "map_pipe", "vf_basic", "vf_sub", "diamond"]
+def ftstruct_base():
+    """user file types as members of a struct, of an array of structs and of a nested struct"""
+    from mro import stage, call, pipeline, program, ref, self_, const, struct, FSTRUCT
+    return program("equiv_ftstruct", [struct("REP", "csv f, int n"), struct("BOOK", "REP first, REP[] rest, map<idx> byname")],
+                   [stage("MAKE", "int x", "REP rep, BOOK book", {"rep": FSTRUCT, "book": const(None)}),
+                    stage("USE", "REP rep, BOOK book", "int s", {"s": const(3)})],
+                   [pipeline("TOP", "int x", "int s, REP rep",
+                             [call("MAKE", binds={"x": self_("x")}),
+                              call("USE", binds={"rep": ref("MAKE", "rep"), "book": ref("MAKE", "book")})],
+                             {"s": ref("USE", "s"), "rep": ref("MAKE", "rep")})],
+                   "TOP", {"x": 4}, filetypes=("csv", "idx"))
+
+
+BASES = ["equiv_ftstruct", "equiv_alias", "equiv_wild", "equiv_rich", "subpipe", "dis_pipe", "map_dyn2", "split2", "structs", "map_pipe", "vf_basic", "vf_sub", "diamond"]
 
 
 def norm(p):
@@ -417,7 +430,7 @@ def invocation(p):
 
 
 def pairs(tier):
-    cat = {p["name"]: p for p in shapes.catalogue() + fshapes.catalogue() + [rich_base(), wild_base(), alias_base()]}
+    cat = {p["name"]: p for p in shapes.catalogue() + fshapes.catalogue() + [rich_base(), wild_base(), alias_base(), ftstruct_base()]}
     out = []
     for name in BASES:
         a = norm(cat[name])
